@@ -36,6 +36,17 @@ use vhdl_lang::{
 thread_local! {
     static LAST_PANIC: RefCell<String> = RefCell::new(String::new());
 }
+/// panics inside the analysis happen on rayon worker threads: the hook also files the location under the message
+static PANIC_LOCS: Mutex<Vec<(String, String)>> = Mutex::new(Vec::new());
+static TIMES: Mutex<BTreeMap<String, (u64, u64)>> = Mutex::new(BTreeMap::new());
+
+fn add_time(name: &str, t: Instant) {
+    let us = t.elapsed().as_micros() as u64;
+    let mut m = TIMES.lock().unwrap();
+    let e = m.entry(name.to_string()).or_insert((0, 0));
+    e.0 += 1;
+    e.1 += us;
+}
 
 fn install_hook() {
     std::panic::set_hook(Box::new(|info| {
@@ -57,14 +68,40 @@ fn install_hook() {
             None => loc,
         };
         LAST_PANIC.with(|p| *p.borrow_mut() = format!("{loc}: {msg}"));
+        if let Ok(mut v) = PANIC_LOCS.lock() {
+            if v.len() > 64 {
+                v.remove(0);
+            }
+            v.push((msg, loc));
+        }
     }));
 }
 
-fn last_panic() -> String {
-    LAST_PANIC.with(|p| p.borrow().clone())
+fn payload_msg(e: &Box<dyn std::any::Any + Send>) -> String {
+    let msg = if let Some(s) = e.downcast_ref::<&str>() {
+        s.to_string()
+    } else if let Some(s) = e.downcast_ref::<String>() {
+        s.clone()
+    } else {
+        "<non-string panic payload>".to_string()
+    };
+    let mut msg: String = msg.chars().take(300).collect();
+    if let Some(i) = msg.find('\n') {
+        msg.truncate(i);
+    }
+    msg
+}
+
+/// `location: message` of the panic that `catch_unwind` returned
+fn panic_text(e: &Box<dyn std::any::Any + Send>) -> String {
+    let msg = payload_msg(e);
+    let loc = PANIC_LOCS.lock().ok().and_then(|v| v.iter().rev().find(|(m, _)| *m == msg).map(|(_, l)| l.clone())).unwrap_or_else(|| "?".into());
+    format!("{loc}: {msg}")
 }
 
 struct Heartbeat {
+    /// the query being executed (for the hang report)
+    current: Mutex<String>,
     t0: Instant,
     last_ms: AtomicU64,
     desc: Mutex<Option<Value>>,
@@ -73,13 +110,14 @@ struct Heartbeat {
 
 impl Heartbeat {
     fn new(t0: Instant) -> Heartbeat {
-        Heartbeat { t0, last_ms: AtomicU64::new(0), desc: Mutex::new(None), idle: AtomicUsize::new(1) }
+        Heartbeat { current: Mutex::new(String::new()), t0, last_ms: AtomicU64::new(0), desc: Mutex::new(None), idle: AtomicUsize::new(1) }
     }
     fn beat(&self) {
         self.last_ms.store(self.t0.elapsed().as_millis() as u64, Ordering::Relaxed);
     }
     fn set(&self, v: Value) {
         *self.desc.lock().unwrap() = Some(v);
+        self.current.lock().unwrap().clear();
         self.idle.store(0, Ordering::Relaxed);
         self.beat();
     }
@@ -187,7 +225,7 @@ impl<'a> Texts<'a> {
         };
         let r = pos.range;
         // end-of-file marker excepted (both conventions of the code base: reader position and Contents::end)
-        let eof_ok = |p: Position| p == info.end;
+        let eof_ok = |p: Position| p == info.end || (p.line == info.end.line && p.character == info.end.character + 1);
         let ok = |p: Position| Self::pos_ok(info, p) || eof_ok(p);
         if !ok(r.start) || !ok(r.end) {
             return Some(format!(
@@ -328,9 +366,23 @@ fn case_upto(case: &Case, step: usize) -> Value {
 impl StateCtx<'_> {
     fn report(&mut self, class: &str, whr: &str, detail: String, cursor: Option<(&str, u32, u32)>) {
         *self.nviol += 1;
+        // the file a location problem is about, relative to the project directory
+        let loc_file = detail.split("current text of ").nth(1).and_then(|s| s.split(" (").next()).map(|s| {
+            match s.find("/w/").or_else(|| s.rfind("/work/")) {
+                _ => {
+                    let mut best = s.to_string();
+                    for (n, _) in &self.case.files {
+                        if s.ends_with(&format!("/{}", n)) {
+                            best = n.clone();
+                        }
+                    }
+                    best
+                }
+            }
+        });
         let sig = match class {
             "panic" => format!("panic|{}", detail),
-            "location" => format!("location|{}|{}", whr, detail.split(" lies").next().unwrap_or("").len()),
+            "location" => format!("location|{}|{}", whr, loc_file.clone().unwrap_or_default()),
             _ => format!("{}|{}", class, whr),
         };
         let mut cj = case_upto(self.case, self.step);
@@ -341,7 +393,7 @@ impl StateCtx<'_> {
         self.out.violation(
             &sig,
             json!({"kind": "violation", "class": class, "where": whr, "detail": detail, "step": self.step, "last_edit_kind": last_kind,
-                   "cursor": cursor.map(|(f, l, c)| json!([f, l, c])), "case": cj}),
+                   "loc_file": loc_file, "cursor": cursor.map(|(f, l, c)| json!([f, l, c])), "case": cj}),
         );
     }
 }
@@ -380,9 +432,10 @@ fn file_queries(project: &Project, sc: &mut StateCtx, fname: &str, src: &Source)
     let run = |name: &str, f: &mut dyn FnMut(&mut Vec<String>, &mut usize)| -> (Result<(), String>, Vec<String>, usize) {
         let mut problems = vec![];
         let mut n = 0usize;
+        let t = Instant::now();
         let res = catch_unwind(AssertUnwindSafe(|| f(&mut problems, &mut n)));
-        let _ = name;
-        (res.map_err(|_| last_panic()), problems, n)
+        add_time(name, t);
+        (res.map_err(|e| panic_text(&e)), problems, n)
     };
     let mut jobs: Vec<(&str, Box<dyn FnMut(&mut Vec<String>, &mut usize) + '_>)> = vec![];
     jobs.push(("document_symbols", Box::new(|problems, n| {
@@ -446,11 +499,14 @@ fn cursor_queries(project: &Project, sc: &mut StateCtx, fname: &str, src: &Sourc
         macro_rules! q {
             ($name:expr, $body:expr) => {{
                 sc.stats.queries += 1;
+                *hb.current.lock().unwrap() = format!("{} at {}:{}:{}", $name, fname, l, c);
                 let mut problems: Vec<String> = vec![];
+                let t = Instant::now();
                 let res = catch_unwind(AssertUnwindSafe(|| $body(&mut problems)));
+                add_time($name, t);
                 match res {
-                    Err(_) => {
-                        sc.report("panic", $name, last_panic(), Some((fname, l, c)));
+                    Err(e) => {
+                        sc.report("panic", $name, panic_text(&e), Some((fname, l, c)));
                         None
                     }
                     Ok(v) => {
@@ -626,15 +682,7 @@ impl Searcher for ArenaObs<'_> {
             self.ndecls += 1;
             match self.project.entity_id_from_raw(id.to_raw()) {
                 None => self.invalid.push(format!("declaration holds entity id {:#x} unknown to the root arena", id.to_raw())),
-                Some(id) => {
-                    let raw = id.to_raw();
-                    let arena = (raw >> 32) as u32;
-                    // attribute the declaration to its file through the entity (current version by C03_arena_closed)
-                    if let Some(text) = self.project.format_entity(id) {
-                        let _ = text;
-                    }
-                    let _ = arena;
-                }
+                Some(_) => {}
             }
         }
         SearchState::NotFinished
@@ -672,12 +720,14 @@ fn run_case(case: &Case, dir: &Path, hb: &Heartbeat, out: &Out, opts: &Opts) -> 
     let mut nviol = 0usize;
     let mut r = Rng::new(case.id.bytes().fold(7u64, |a, b| a.wrapping_mul(131).wrapping_add(b as u64)));
     hb.set(json!({"case": case_upto(case, 0), "step": 0, "phase": "Project::from_config (parse)"}));
+    let t = Instant::now();
     let made = catch_unwind(AssertUnwindSafe(|| make_project(case, dir)));
+    add_time("Project::from_config", t);
     let mut project = match made {
         Ok(p) => p,
-        Err(_) => {
+        Err(e) => {
             let mut sc = StateCtx { case, step: 0, out, stats: &mut stats, nviol: &mut nviol };
-            sc.report("panic", "Project::from_config", last_panic(), None);
+            sc.report("panic", "Project::from_config", panic_text(&e), None);
             return (stats, nviol);
         }
     };
@@ -704,21 +754,23 @@ fn run_case(case: &Case, dir: &Path, hb: &Heartbeat, out: &Out, opts: &Opts) -> 
                     }
                 }
             }));
-            if res.is_err() {
+            if let Err(e) = res {
                 let mut sc = StateCtx { case, step, out, stats: &mut stats, nviol: &mut nviol };
-                sc.report("panic", "update_source", last_panic(), None);
+                sc.report("panic", "update_source", panic_text(&e), None);
                 return (stats, nviol);
             }
             edited = Some((e.file.clone(), e.range.map(|r| r[0]).unwrap_or(0)));
         }
         hb.set(json!({"case": case_upto(case, step), "step": step, "phase": "Project::analyse"}));
+        let t = Instant::now();
         let res = catch_unwind(AssertUnwindSafe(|| project.analyse()));
+        add_time("analyse", t);
         stats.states += 1;
         let diags = match res {
             Ok(d) => d,
-            Err(_) => {
+            Err(e) => {
                 let mut sc = StateCtx { case, step, out, stats: &mut stats, nviol: &mut nviol };
-                sc.report("panic", "analyse", last_panic(), None);
+                sc.report("panic", "analyse", panic_text(&e), None);
                 // the project may hold locks / half-analysed units now: stop this case
                 return (stats, nviol);
             }
@@ -760,6 +812,8 @@ fn run_case(case: &Case, dir: &Path, hb: &Heartbeat, out: &Out, opts: &Opts) -> 
             hb.beat();
         }
         if opts.arena_trace {
+            *hb.current.lock().unwrap() = "arena observation (Project::search)".to_string();
+            hb.beat();
             let res = catch_unwind(AssertUnwindSafe(|| {
                 let mut obs = ArenaObs { project: &project, decl_arenas: BTreeMap::new(), invalid: vec![], nrefs: 0, ndecls: 0, dir: dir.display().to_string() };
                 project.search(&mut obs);
@@ -767,7 +821,7 @@ fn run_case(case: &Case, dir: &Path, hb: &Heartbeat, out: &Out, opts: &Opts) -> 
                 (obs.invalid, obs.nrefs, obs.ndecls, units)
             }));
             match res {
-                Err(_) => sc.report("panic", "search(arena observation)", last_panic(), None),
+                Err(e) => sc.report("panic", "search(arena observation)", panic_text(&e), None),
                 Ok((invalid, nrefs, ndecls, units)) => {
                     for p in invalid.into_iter().take(2) {
                         sc.report("arena", "entity id not resolvable", p, None);
@@ -841,7 +895,7 @@ fn run_all(cases: Arc<Vec<Case>>, out_path: &str, workdir: &str, threads: usize,
             if hb.idle.load(Ordering::Relaxed) == 0 && now.saturating_sub(hb.last_ms.load(Ordering::Relaxed)) > watchdog_s * 1000 {
                 let desc = hb.desc.lock().unwrap().clone().unwrap_or(Value::Null);
                 out.write(&json!({"kind": "violation", "class": "hang", "where": desc.get("phase").cloned().unwrap_or(Value::Null),
-                    "detail": format!("no progress for more than {} s (watchdog)", watchdog_s), "step": desc.get("step").cloned().unwrap_or(Value::Null),
+                    "detail": format!("no progress for more than {} s (watchdog); last query started: {}", watchdog_s, hb.current.lock().unwrap()), "step": desc.get("step").cloned().unwrap_or(Value::Null),
                     "cursor": Value::Null, "case": desc.get("case").cloned().unwrap_or(Value::Null)}));
                 hang = true;
             }
@@ -854,7 +908,8 @@ fn run_all(cases: Arc<Vec<Case>>, out_path: &str, workdir: &str, threads: usize,
     out.write(&json!({"kind": "summary", "cases": cases.len(), "states": t.0.states, "queries": t.0.queries, "cursors": t.0.cursors, "diagnostics": t.0.diags,
         "locations_checked": t.0.locations, "states_with_error_diagnostics": t.0.error_states, "cursors_resolving_to_a_declaration": t.0.found_decl,
         "completion_items": t.0.completions, "violations": t.1, "states_per_family": t.2, "edit_kinds": t.3, "hang": hang,
-        "signatures": *out.sigs.lock().unwrap(), "wall_s": t0.elapsed().as_secs_f64()}));
+        "signatures": *out.sigs.lock().unwrap(),
+        "time_us": TIMES.lock().unwrap().iter().map(|(k, v)| (k.clone(), json!([v.0, v.1]))).collect::<serde_json::Map<String, Value>>(), "wall_s": t0.elapsed().as_secs_f64()}));
     if hang {
         // worker threads stuck inside the implementation cannot be cancelled
         std::process::exit(3);
